@@ -54,6 +54,10 @@ func refChild() {
 	core.Import(e)
 	_, err = vm.Execute(e, nil, string(src))
 	if err != nil {
+		// the library's error text, verbatim, for the diagnostic-line oracle
+		if os.WriteFile(os.Getenv("C18_ERR"), []byte(err.Error()), 0o644) != nil {
+			os.Exit(97)
+		}
 		os.Exit(refExitErr)
 	}
 	os.Exit(refExitOK)
@@ -108,13 +112,17 @@ func runProc(cmd *exec.Cmd) procResult {
 
 type ccase struct {
 	Src  string   `json:"src"`
-	Mode string   `json:"mode"` // file | -e | missing | dir
+	Mode string   `json:"mode"`           // file | -e | missing | dir
+	Name string   `json:"name,omitempty"` // base name of the path given to anko (file modes)
 	Args []string `json:"args"`
 }
 
 func (k ccase) text() string {
 	a, _ := json.Marshal(k.Args)
-	return fmt.Sprintf("anko %s args=%s script=%q", k.Mode, a, k.Src)
+	if k.Mode == "-e" {
+		return fmt.Sprintf("anko -e args=%s script=%q", a, k.Src)
+	}
+	return fmt.Sprintf("anko %s(%s) args=%s script=%q", k.Mode, k.Name, a, k.Src)
 }
 
 var argSets = [][]string{{}, {"a"}, {"a", "b c"}, {"a", "-x"}}
@@ -122,14 +130,14 @@ var argSets = [][]string{{}, {"a"}, {"a", "b c"}, {"a", "-x"}}
 func configsFor(src string) []ccase {
 	var out []ccase
 	out = append(out,
-		ccase{src, "file", argSets[0]}, ccase{src, "file", argSets[1]}, ccase{src, "file", argSets[2]},
-		ccase{src, "missing", argSets[0]}, ccase{src, "missing", argSets[2]},
-		ccase{src, "dir", argSets[0]}, ccase{src, "dir", argSets[1]},
+		ccase{src, "file", "prog.ank", argSets[0]}, ccase{src, "file", "prog-100%.ank", argSets[1]}, ccase{src, "file", "prog.ank", argSets[2]},
+		ccase{src, "missing", "no-such-file.ank", argSets[0]}, ccase{src, "missing", "report-100%-done.ank", argSets[2]},
+		ccase{src, "dir", "adir.ank", argSets[0]}, ccase{src, "dir", "dir-%d-50%.ank", argSets[1]},
 	)
 	if src != "" {
 		// `-e ""` is indistinguishable from "no -e" for the flag package and
 		// starts the interactive mode (out of scope)
-		out = append(out, ccase{src, "-e", argSets[0]}, ccase{src, "-e", argSets[3]})
+		out = append(out, ccase{src, "-e", "", argSets[0]}, ccase{src, "-e", "", argSets[3]})
 	}
 	return out
 }
@@ -140,27 +148,33 @@ type runner struct {
 }
 
 // reference runs vm.Execute in a child process, stdout captured.
-func (r *runner) reference(dir string, src string, args []string) (stdout string, failed bool, machinery string) {
+func (r *runner) reference(dir string, src string, args []string) (stdout string, failed bool, errText string, machinery string) {
 	srcPath := filepath.Join(dir, "ref-src.ank")
 	if err := os.WriteFile(srcPath, []byte(src), 0o644); err != nil {
-		return "", false, err.Error()
+		return "", false, "", err.Error()
 	}
 	cmd := common.SpawnChild("c18ref")
 	a, _ := json.Marshal(args)
-	cmd.Env = append(cmd.Env, "C18_SRC="+srcPath, "C18_ARGS="+string(a))
+	errPath := filepath.Join(dir, "ref-err.txt")
+	os.Remove(errPath)
+	cmd.Env = append(cmd.Env, "C18_SRC="+srcPath, "C18_ARGS="+string(a), "C18_ERR="+errPath)
 	cmd.Dir = dir
 	pr := runProc(cmd)
 	switch {
 	case pr.failed != "":
-		return "", false, "reference child: " + pr.failed
+		return "", false, "", "reference child: " + pr.failed
 	case pr.timeout:
-		return "", false, "reference child: timeout"
+		return "", false, "", "reference child: timeout"
 	case pr.exit == refExitOK:
-		return pr.stdout, false, ""
+		return pr.stdout, false, "", ""
 	case pr.exit == refExitErr:
-		return pr.stdout, true, ""
+		b, err := os.ReadFile(errPath)
+		if err != nil {
+			return "", false, "", "reference child: error text not written: " + err.Error()
+		}
+		return pr.stdout, true, string(b), ""
 	}
-	return "", false, fmt.Sprintf("reference child ended with status %d: %s", pr.exit, firstLine(pr.stderr))
+	return "", false, "", fmt.Sprintf("reference child ended with status %d: %s", pr.exit, firstLine(pr.stderr))
 }
 
 func firstLine(s string) string {
@@ -183,6 +197,7 @@ type verdict struct {
 	exit          int    // observed exit status of anko
 	stdout        string // observed standard output of anko
 	refOut        string // what the script printed in the reference run
+	refErr        string // err.Error() of vm.Execute in the reference run
 }
 
 // check runs one case in directory dir (private to the caller).
@@ -190,7 +205,7 @@ func (r *runner) check(dir string, k ccase) verdict {
 	var argv []string
 	switch k.Mode {
 	case "file":
-		p := filepath.Join(dir, "prog.ank")
+		p := filepath.Join(dir, k.Name)
 		if err := os.WriteFile(p, []byte(k.Src), 0o644); err != nil {
 			return verdict{machinery: err.Error()}
 		}
@@ -198,9 +213,9 @@ func (r *runner) check(dir string, k ccase) verdict {
 	case "-e":
 		argv = append([]string{"-e", k.Src}, k.Args...)
 	case "missing":
-		argv = append([]string{filepath.Join(dir, "no-such-file.ank")}, k.Args...)
+		argv = append([]string{filepath.Join(dir, k.Name)}, k.Args...)
 	case "dir":
-		p := filepath.Join(dir, "adir.ank")
+		p := filepath.Join(dir, k.Name)
 		if err := os.MkdirAll(p, 0o755); err != nil {
 			return verdict{machinery: err.Error()}
 		}
@@ -222,13 +237,16 @@ func (r *runner) check(dir string, k ccase) verdict {
 		if !oneDiagnosticLine(cli.stdout) {
 			return verdict{class: "stdout/unreadable-file/" + k.Mode, detail: fmt.Sprintf("want exactly one diagnostic line on standard output, got %q (stderr %q)", cli.stdout, cli.stderr)}
 		}
+		if !strings.Contains(cli.stdout, argv[0]) {
+			return verdict{class: "stdout/unreadable-file-name/" + k.Mode, detail: fmt.Sprintf("the diagnostic line must name the file %q verbatim, got %q", argv[0], cli.stdout)}
+		}
 		return verdict{nontrivial: true, exit: cli.exit, stdout: cli.stdout}
 	}
-	refOut, refFailed, mach := r.reference(dir, k.Src, k.Args)
+	refOut, refFailed, refErr, mach := r.reference(dir, k.Src, k.Args)
 	if mach != "" {
 		return verdict{machinery: mach}
 	}
-	v := verdict{nontrivial: refOut != "" || refFailed, refFailed: refFailed, exit: cli.exit, stdout: cli.stdout, refOut: refOut}
+	v := verdict{nontrivial: refOut != "" || refFailed, refFailed: refFailed, exit: cli.exit, stdout: cli.stdout, refOut: refOut, refErr: refErr}
 	if !refFailed {
 		if cli.exit != 0 {
 			v.class, v.detail = "exit-code/library-succeeds/"+k.Mode, fmt.Sprintf("vm.Execute returns no error: want exit status 0, got %d (stdout %q)", cli.exit, cli.stdout)
@@ -247,8 +265,14 @@ func (r *runner) check(dir string, k ccase) verdict {
 		v.class, v.detail = "stdout/library-fails/"+k.Mode, fmt.Sprintf("script prints %q before failing; anko wrote %q", refOut, cli.stdout)
 		return v
 	}
-	if rest := cli.stdout[len(refOut):]; !oneDiagnosticLine(rest) {
+	rest := cli.stdout[len(refOut):]
+	multiLine := strings.Contains(refErr, "\n") // an error text with line breaks cannot fit one line: only its first line is required then
+	if !multiLine && !oneDiagnosticLine(rest) {
 		v.class, v.detail = "stdout/diagnostic-line/"+k.Mode, fmt.Sprintf("after the script's output %q want exactly one diagnostic line on standard output, got %q (stderr %q)", refOut, rest, cli.stderr)
+		return v
+	}
+	if !strings.Contains(firstLine(rest), firstLine(refErr)) || !strings.HasSuffix(rest, "\n") {
+		v.class, v.detail = "stdout/diagnostic-text/"+k.Mode, fmt.Sprintf("the diagnostic line must contain the library's error text %q verbatim, got %q", refErr, rest)
 	}
 	return v
 }
@@ -340,7 +364,7 @@ func run(c *common.Ctx) *common.Result {
 			if it.v.nontrivial {
 				if it.k.Mode == "missing" || it.k.Mode == "dir" {
 					// the script text plays no role here: distinct by path condition and arguments
-					res.Distinct("nontrivial", ccase{"", it.k.Mode, it.k.Args}.text())
+					res.Distinct("nontrivial", ccase{"", it.k.Mode, it.k.Name, it.k.Args}.text())
 				} else {
 					res.Distinct("nontrivial", it.k.text())
 				}
@@ -373,7 +397,7 @@ func run(c *common.Ctx) *common.Result {
 	}
 	want := []struct{ tag, mode string }{
 		{"ok-arith", "file"}, {"args-print", "file"}, {"args-loop", "-e"}, {"pkg-strings", "-e"}, {"lex-unterminated-string", "file"},
-		{"syn-late", "-e"}, {"run-in-loop", "file"}, {"throw-after-catch", "-e"}, {"func-nested", "file"}, {"ok-print-nonl", "-e"},
+		{"syn-late", "-e"}, {"run-in-loop", "file"}, {"throw-after-catch", "-e"}, {"throw-percent-mid", "file"}, {"ok-print-nonl", "-e"},
 		{"ok-empty", "missing"}, {"ok-empty", "dir"},
 	}
 	for _, w := range want {
@@ -388,6 +412,9 @@ func run(c *common.Ctx) *common.Result {
 					if w.mode == "file" || w.mode == "-e" {
 						m["library_error"] = it.v.refFailed
 						m["library_stdout"] = it.v.refOut
+						if it.v.refFailed {
+							m["library_error_text"] = it.v.refErr
+						}
 					}
 					res.Sample(m)
 					break search
